@@ -159,7 +159,18 @@ def write_replay(prop, name, payload):
     return p
 
 
+class ImplementationFault(Exception):
+    """raised by a check whose implementation run happens in a child process, when the child reports that the
+    implementation itself failed there (see implementation_fault)"""
+
+    def __init__(self, typ, blame):
+        super().__init__(blame)
+        self.typ, self.blame = typ, blame
+
+
 def implementation_fault(e):
+    if isinstance(e, ImplementationFault):
+        return e.blame
     """does this exception come from the implementation under test (a frame inside the gradysim package, or a
     missing attribute / name of one of its modules, classes or objects)? -> description, else None"""
     tb = traceback.extract_tb(e.__traceback__)
@@ -193,8 +204,9 @@ def evaluate(check, cases, want_model=True):
             # the implementation under test failed where the harness does not expect failures (while importing
             # it, building a scenario, or through a name of its public API that is gone): with this input the
             # property cannot hold - reported as a violation with the input, never as an infrastructure error
+            typ = e.typ if isinstance(e, ImplementationFault) else type(e).__name__
             rows.append({"case": case, "impl": None, "model": None, "diffs": [],
-                         "fails": [(f"{check.prop}:crash:{type(e).__name__}", blame)], "impl_crashed": True})
+                         "fails": [(f"{check.prop}:crash:{typ}", blame)], "impl_crashed": True})
             continue
         row = {"case": case, "impl": impl, "model": None, "diffs": [], "fails": []}
         rows.append(row)
